@@ -10,7 +10,7 @@ from ..vloop import run_virtual
 from .. import procrun as pr
 
 RULE = ("one case = one job (retries N in 0..6) followed through all its attempts by real Workers in virtual time: all 2^(N+1) "
-        "failure patterns for N<=3 (exception or timeout), sampled for larger N; default policy with generated parameters and "
+        "failure patterns for N<=3 (exception or timeout), sampled for larger N; explicitly forced retries at every position of the chain (before, at and beyond the budget) followed by ordinary failures or a success; default policy with generated parameters and "
         "user policies (constant, linear, zero); recurring or not; 'jump' (one Worker.run per attempt at the due time) and "
         "'continuous' (one Worker polling through the back-offs) modes; distinct by the printed Coq chain case; non-trivial = "
         "at least one retry happened")
@@ -28,13 +28,22 @@ def oracle(case, r) -> list[tuple[str, str]]:
         bad.append(("worker_died", str(r["run_errors"])))
     # split into schedulings; within one scheduling the counter goes 0,1,2,...
     k_in = 0
+    forced = 0
     for i, a in enumerate(att):
         p = a["params_at_delivery"]
         if p.retries.already_tried != k_in:
             bad.append(("counter_wrong", f"attempt {i}: message carries already_tried={p.retries.already_tried}, expected {k_in}"))
             return bad
-        if p.retries.already_tried > N:
-            bad.append(("counter_exceeds_budget", f"already_tried={p.retries.already_tried} > retries={N}"))
+        if p.retries.already_tried > max(N, 0) + forced:
+            bad.append(("counter_exceeds_budget", f"already_tried={p.retries.already_tried} > retries={N} with {forced} forced retries"))
+        if a.get("kind") == "force":
+            q = a["params_out"]
+            if a["op"] != "requeue" or q.retries.already_tried != k_in + 1:
+                bad.append(("forced_retry_not_counted", f"force_retry at attempt {i}: op={a['op']}"))
+                return bad
+            k_in += 1
+            forced += 1
+            continue
         if i > 0 and att[i - 1]["params_out"] is not None:
             due = att[i - 1]["params_out"].delay.next_execution_time
             if due is not None and a["delivered_at"] < ct.us_of_dt(due):
@@ -63,8 +72,9 @@ def oracle(case, r) -> list[tuple[str, str]]:
             elif want == "requeue" and a["params_out"].retries.already_tried != 0:
                 bad.append(("reschedule_keeps_counter", "rescheduled successor does not start at already_tried=0"))
             k_in = 0
+            forced = 0
     # executions per scheduling for all-fail chains
-    if all(x != "ok" for x in case["pattern"]) and not case.get("by") and len(case["pattern"]) >= N + 1:
+    if all(x not in ("ok", "force") for x in case["pattern"]) and not case.get("by") and len(case["pattern"]) >= N + 1:
         if len(att) != N + 1:
             bad.append(("wrong_number_of_executions", f"retries={N}, all failing: {len(att)} executions"))
         elif r["places"] != ["dead"]:
@@ -92,6 +102,14 @@ def gen(ctx: Ctx, rng) -> list[dict]:
         cases.append({"N": N, "pattern": pat, "by": by, "mode": "jump",
                       "pol": ("default", rng.randint(1, 20), rng.randint(20, 100000), rng.randint(1, 9), rng.randint(1, 20))
                       if rng.random() < 0.6 else rng.choice(pols)})
+    # explicitly forced retries (the only way beyond the budget), followed by ordinary failures or a success
+    for N in range(0, 4):
+        for n_before in range(0, N + 1):
+            for n_force in (1, 2):
+                for tail in (["raise"], ["timeout"], ["ok"], ["raise", "raise"]):
+                    pat = ["raise"] * n_before + ["force"] * n_force + tail
+                    cases.append({"N": N, "pattern": pat, "by": rng.choice([None, None, 30 * S]), "mode": "jump",
+                                  "pol": rng.choice(pols), "force_backoff": rng.choice([0, 1000, 2 * S])})
     for _ in range(ctx.scale(60, 600)):
         N = rng.randint(1, 3)
         pat = [rng.choice(["raise", "raise", "ok"]) for _ in range(N + 1)]
